@@ -64,6 +64,18 @@ impl<R> AsyncReader<R> {
     pub fn into_parts(self) -> (R, Vec<u8>) {
         (self.reader, self.buffer)
     }
+
+    /// Verification hook: `(state tag, offset, buffer length, max. length)`.
+    ///
+    /// The state tag is 0 while reading the length prefix and 1 while
+    /// reading the value bytes.
+    #[cfg(minicbor_verif)]
+    pub fn verif_state(&self) -> (u8, usize, usize, usize) {
+        match self.state {
+            State::ReadLen(_, o) => (0, usize::from(o), self.buffer.len(), self.max_len),
+            State::ReadVal(o)    => (1, o, self.buffer.len(), self.max_len)
+        }
+    }
 }
 
 impl<R: AsyncRead + Unpin> AsyncReader<R> {
